@@ -41,6 +41,8 @@ def main():
         n = str(int(n) + 3)
     if "/seed8/" in src:
         n = str(int(n) + 21)
+    if "/seed9/" in src:
+        n = str(int(n) + 24)
     if "/seed7/" in src:
         n = str(int(n) + 18)
     if "/seed6/" in src:
